@@ -133,14 +133,15 @@ func (c *FnCtx) sev(sc *specCtx, e *SExpr) *Term {
 		for _, b := range e.Binds {
 			t := c.resolveType(b.Type, e)
 			srt := c.ts.sortOf(t)
-			c.quantN++
-			name := fmt.Sprintf("%s!q%d", sanitize(b.Name), c.quantN)
+			name := fmt.Sprintf("%s!d%d", sanitize(b.Name), c.qdepth)
 			bs = append(bs, Bound{name, srt})
 			env2[b.Name] = leaf(name, srt).withGo(t)
 			_ = guards
 		}
 		sc2 := &specCtx{st: sc.st, env: env2, old: sc.old, site: sc.site}
+		c.qdepth++
 		body := c.sevBool(sc2, e.Args[0])
+		c.qdepth--
 		pats := c.inferPatterns(bs, body)
 		if e.Name == "forall" {
 			return mkForall(bs, body, pats...)
@@ -305,8 +306,7 @@ func (c *FnCtx) seqEq(a, b *Term) *Term {
 	if a.String() == b.String() {
 		return tTrue
 	}
-	c.quantN++
-	i := leaf(fmt.Sprintf("se!%d", c.quantN), SInt)
+	i := leaf(fmt.Sprintf("se!d%d", c.qdepth), SInt)
 	return mkAnd(mkEq(c.sliceLen(a), c.sliceLen(b)),
 		mkForall([]Bound{{i.Op, SInt}}, mkImplies(mkAnd(mkLe(intLit(0), i), mkLt(i, c.sliceLen(a))), mkEq(c.sliceAt(a, i), c.sliceAt(b, i))), []*Term{c.sliceAt(a, i)}, []*Term{c.sliceAt(b, i)}))
 }
@@ -356,12 +356,13 @@ func (c *FnCtx) sevCall(sc *specCtx, e *SExpr) *Term {
 			x := c.sev(sc, args[0])
 			return c.lenOf(sc.st, x, x.GoT, nil)
 		case "contains":
-			// contains(seq, x): x occurs in seq
-			s := c.sev(sc, args[0])
+			// contains(seq, x): x occurs in seq (function with witness, axiomatised once per sequence sort)
+			sq := c.sev(sc, args[0])
 			x := c.sev(sc, args[1])
-			c.quantN++
-			i := leaf(fmt.Sprintf("ct!%d", c.quantN), SInt)
-			return mkExists([]Bound{{i.Op, SInt}}, mkAnd(mkLe(intLit(0), i), mkLt(i, c.sliceLen(s)), mkEq(c.sliceAt(s, i), x)), []*Term{c.sliceAt(s, i)})
+			if !c.ts.isSliceSort(sq.Sort) {
+				c.specErr(e, "contains on %s", sq.Sort)
+			}
+			return c.seqContains(sq, x)
 		case "indom":
 			// indom(m, k): k is a key of map m
 			m := c.sev(sc, args[0])
@@ -465,7 +466,7 @@ func (c *FnCtx) sevCall(sc *specCtx, e *SExpr) *Term {
 func (c *FnCtx) specApplyFunc(sc *specCtx, fn *types.Func, recv *Term, args []*Term, e *SExpr) *Term {
 	key := funcKey(fn)
 	sig := fn.Type().(*types.Signature)
-	if strings.HasPrefix(key, repoPrefix) {
+	if strings.HasPrefix(key, repoPrefix) && c.eng.funcs[key] != nil {
 		ct := c.eng.contracts[key]
 		fi := c.eng.funcs[key]
 		if ct != nil && ct.Pure && fi != nil && len(ct.Ensures) >= 1 {
@@ -540,6 +541,9 @@ func (c *FnCtx) applySpecFunc(sc *specCtx, f *SpecFunc, args []*Term, e *SExpr) 
 			}
 		}
 		return mk(name, rs, args...).withGo(rt)
+	}
+	if !f.Macro {
+		return c.applyDefinedFunc(sc, f, args, e)
 	}
 	// macro: evaluate the body with parameters bound (heap-dependent bodies see the current state)
 	if c.specDepth > 40 {
@@ -802,4 +806,133 @@ func (c *FnCtx) ghostField(t types.Type, name string, e *SExpr) (heapName, sort 
 	}
 	gt = c.resolveType(ty, e)
 	return "GH_" + sanitize(key), c.ts.sortOf(gt), gt
+}
+
+// applyDefinedFunc: a spec function as an SMT function with a definitional axiom triggered on its applications.
+// The heap arrays (and globals) its body reads become leading parameters, so the function is well defined in
+// every state and applications in different states are different terms.
+func (c *FnCtx) applyDefinedFunc(sc *specCtx, f *SpecFunc, args []*Term, e *SExpr) *Term {
+	if c.specDefs == nil {
+		c.specDefs = map[string]*specDef{}
+	}
+	def, ok := c.specDefs[f.Name]
+	if !ok {
+		if c.specDepth > 40 {
+			c.specErr(e, "spec function recursion too deep (mark it rec)")
+		}
+		tst := &State{vars: map[types.Object]*Term{}, heap: map[string]*Term{}, ghost: map[string]*Term{}, alloc: leaf("alloc$tmpl", SInt), tmpl: &tmplInfo{vars: map[string]*Term{}}}
+		env := map[string]*Term{}
+		var pb []Bound
+		var pvars []*Term
+		for _, p := range f.Params {
+			t := c.resolveType(p.Type, e)
+			v := leaf("p$"+sanitize(p.Name), c.ts.sortOf(t)).withGo(t)
+			env[p.Name] = v
+			pb = append(pb, Bound{v.Op, v.Sort})
+			pvars = append(pvars, v)
+		}
+		sc2 := &specCtx{st: tst, env: env, old: nil, site: token.NoPos}
+		c.specDepth++
+		saveDepth := c.qdepth
+		c.qdepth += 1
+		savePre := c.pre
+		c.pre = nil
+		body := c.sev(sc2, f.Body)
+		c.pre = savePre
+		c.qdepth = saveDepth
+		c.specDepth--
+		if mentions(body, "alloc$tmpl") {
+			c.specErr(e, "spec function %s depends on the allocation state; declare it as macro func", f.Name)
+		}
+		def = &specDef{name: "sf_" + sanitize(f.Name), resSort: body.Sort, resType: body.GoT}
+		if f.Result != "" {
+			def.resType = c.resolveType(f.Result, e)
+			if rs := c.ts.sortOf(def.resType); rs != body.Sort {
+				c.specErr(e, "spec function %s: body has sort %s, declared result %s", f.Name, body.Sort, rs)
+			}
+		}
+		var hb []Bound
+		var hvars []*Term
+		for _, hn := range tst.tmpl.names {
+			v := tst.tmpl.vars[hn]
+			def.heapNames = append(def.heapNames, hn)
+			def.heapSorts = append(def.heapSorts, v.Sort)
+			hb = append(hb, Bound{v.Op, v.Sort})
+			hvars = append(hvars, v)
+		}
+		var sorts []string
+		for _, b := range append(hb, pb...) {
+			sorts = append(sorts, b.Sort)
+		}
+		c.smt.fun(def.name, sorts, def.resSort)
+		all := append(append([]*Term{}, hvars...), pvars...)
+		if len(all) == 0 {
+			c.smt.axiom("def:"+def.name, mkEq(leaf(def.name, def.resSort), body).String(), false, def.name)
+		} else {
+			app := mk(def.name, def.resSort, all...)
+			ax := mkForall(append(hb, pb...), mkEq(app, body), []*Term{app})
+			c.smt.axiom("def:"+def.name, ax.String(), false, def.name)
+		}
+		c.specDefs[f.Name] = def
+	}
+	var all []*Term
+	for i, hn := range def.heapNames {
+		if strings.HasPrefix(hn, "G:") {
+			t, ok := sc.st.heap[hn]
+			if !ok {
+				// resolve the global through its object
+				t = c.globalByName(sc.st, hn, e)
+			}
+			all = append(all, t)
+			continue
+		}
+		_, vs := arraySorts(def.heapSorts[i])
+		all = append(all, c.heapArr(sc.st, hn, vs))
+	}
+	for i, p := range f.Params {
+		t := c.resolveType(p.Type, e)
+		if args[i].Sort != c.ts.sortOf(t) {
+			c.specErr(e, "spec function %s: argument %s has sort %s, want %s", f.Name, p.Name, args[i].Sort, c.ts.sortOf(t))
+		}
+		all = append(all, args[i])
+	}
+	if len(all) == 0 {
+		return leaf(def.name, def.resSort).withGo(def.resType)
+	}
+	return mk(def.name, def.resSort, all...).withGo(def.resType)
+}
+
+func (c *FnCtx) globalByName(st *State, hn string, e *SExpr) *Term {
+	for _, p := range c.eng.pkgs {
+		if p.Types == nil || !isRepoPkg(p.Types) {
+			continue
+		}
+		for _, n := range p.Types.Scope().Names() {
+			if v, ok := p.Types.Scope().Lookup(n).(*types.Var); ok {
+				if "G:"+shortPkg(v.Pkg())+"."+v.Name() == hn {
+					return c.globalRead(st, v)
+				}
+			}
+		}
+	}
+	c.specErr(e, "cannot resolve global %s", hn)
+	return nil
+}
+
+// seqContains: membership in a sequence as a function with a witness function (Dafny-style axiomatisation).
+func (c *FnCtx) seqContains(sq, x *Term) *Term {
+	srt := sq.Sort
+	es := c.ts.elemSort(srt)
+	if x.Sort != es {
+		panic(unsupported{fmt.Sprintf("contains: element sort %s vs %s", x.Sort, es)})
+	}
+	fn := "contains_" + srt
+	wit := "containsw_" + srt
+	c.smt.fun(fn, []string{srt, es}, SBool)
+	c.smt.fun(wit, []string{srt, es}, SInt)
+	c.smt.axiom(fn+"_intro", fmt.Sprintf("(forall ((s %s) (x %s) (i Int)) (! (=> (and (<= 0 i) (< i (len_%s s)) (= (select (arr_%s s) i) x)) (%s s x)) :pattern ((select (arr_%s s) i) (%s s x))))", srt, es, srt, srt, fn, srt, fn), false, fn)
+	c.smt.axiom(fn+"_elim", fmt.Sprintf("(forall ((s %s) (x %s)) (! (=> (%s s x) (and (<= 0 (%s s x)) (< (%s s x) (len_%s s)) (= (select (arr_%s s) (%s s x)) x))) :pattern ((%s s x))))", srt, es, fn, wit, wit, srt, srt, wit, fn), false, fn)
+	// every element is contained (triggered on reads)
+	c.smt.axiom(fn+"_self", fmt.Sprintf("(forall ((s %s) (i Int)) (! (=> (and (<= 0 i) (< i (len_%s s))) (%s s (select (arr_%s s) i))) :pattern ((%s s (select (arr_%s s) i)))))", srt, srt, fn, srt, fn, srt), false, fn)
+	return mk(fn, SBool, sq, x)
 }
